@@ -178,7 +178,7 @@ func runC18(c *Ctx) {
 	r.Explanation = "Crash-freedom of lease loading, decided on the code of handlers/dhcp4_spoofer. (nil-deref) Every pointer that may be nil because of the decoded file — the pointer fields of the struct handed to yaml.Unmarshal, nil merged through φs, " +
 		"fields assigned such values, results of functions that can return nil with a nil error — is an obligation at each place it is dereferenced; the obligation is discharged when the path-sensitive interpreter (nil tests refine the pointer) proves it non-nil there in every state, starting from Config.New and from loadByteArray with arbitrary file contents. " +
 		"(insert-guards) the insertion of a loaded lease into the table is dominated by State == Allocated, a valid address inside the home subnet and a non-empty client id. (reset) Config.New keeps the loaded tables only on the branch where err == nil, both subnets and the table are non-nil and the configuration is unchanged. " +
-		"(persist) handleRequest passes saveConfig on the path that acknowledges; saveConfig writes only allocated leases. Trusted: yaml.Unmarshal itself does not panic. (complete-file) writer and reader use one structure whose last field is a lease count, set by saveConfig after the list is complete and compared by loadByteArray before any table is returned, so a file cut short anywhere is refused whole. Not decided: which bindings a file damaged otherwise than by truncation yields."
+		"(persist) handleRequest passes saveConfig on the path that acknowledges; saveConfig writes only allocated leases. Trusted: yaml.Unmarshal itself does not panic. (complete-file) writer and reader use one structure whose last field is a lease count, set by saveConfig after the list is complete and compared by loadByteArray before any table is returned, so a file cut short anywhere is refused whole. (checksum) the writer appends a checksum computed over the bytes it marshalled, the loader verifies it over exactly the bytes it hands to yaml.Unmarshal and returns a table only when it matched, so a file damaged in any way the checksum detects is refused whole."
 	r.Rule("nil-deref", "dereferences of pointers whose nil-ness depends on the lease file are proved non-nil", 4)
 	r.Rule("insert-guards", "a loaded lease enters the table only when allocated, inside the home subnet and with a client id; net2 only for captured MACs", 6)
 	r.Rule("reset", "New falls back to fresh tables unless the loaded state is complete and matches the configuration", 1)
@@ -687,6 +687,119 @@ func runC18(c *Ctx) {
 			}
 		}
 	}
+	// ---- checksum ----
+	// Damage other than truncation - a digit changed inside an address, a line lost from a client id - still parses and
+	// keeps the count. The file carries a checksum of its own bytes: the writer appends one computed over what it
+	// marshalled, the loader hands yaml.Unmarshal exactly the bytes it has verified, and returns a table only when the
+	// checksum matched.
+	r.Rule("checksum", "the lease file carries a checksum of its bytes that the loader verifies before parsing", 3)
+	{
+		load := c.P.Method(rel, "Handler", "loadByteArray")
+		save := c.P.Method(rel, "Handler", "saveConfig")
+		isSum := func(n string) bool {
+			return strings.HasPrefix(n, "hash/crc32.Checksum") || strings.HasPrefix(n, "hash/crc32.Update") || strings.HasPrefix(n, "crypto/sha256.Sum") || strings.HasPrefix(n, "hash/adler32.Checksum") || strings.HasPrefix(n, "crypto/sha1.Sum") || strings.HasPrefix(n, "crypto/md5.Sum")
+		}
+		if load == nil || save == nil {
+			r.Fatal("loadByteArray or saveConfig not found")
+		} else {
+			// loader: what is parsed is what was verified
+			var parsed ssa.Value
+			var um ssa.Instruction
+			for _, site := range callsIn(load, func(n string, _ ssa.CallInstruction) bool { return n == "gopkg.in/yaml.v2.Unmarshal" }) {
+				parsed = site.Common().Args[0]
+				um = site.(ssa.Instruction)
+			}
+			var verified ssa.Value
+			var sumCall ssa.Value
+			for _, site := range callsIn(load, func(n string, _ ssa.CallInstruction) bool { return isSum(n) }) {
+				for _, a := range site.Common().Args {
+					if sl, isSl := a.Type().Underlying().(*types.Slice); isSl {
+						if b, isB := sl.Elem().Underlying().(*types.Basic); isB && b.Kind() == types.Uint8 {
+							verified = a
+							sumCall = site.Value()
+						}
+					}
+				}
+			}
+			st, det := core.Proved, ""
+			switch {
+			case um == nil:
+				st, det = core.Undecided, "yaml.Unmarshal not found in loadByteArray"
+			case sumCall == nil:
+				st, det = core.Violated, "loadByteArray computes no checksum over the bytes of the file: a file damaged otherwise than by truncation (192.168.0.1 changed to 192.168.0.7, a line lost from a clientid list) parses, keeps its count and yields a binding the original file does not hold"
+			case norm(parsed) != norm(verified):
+				st, det = core.Violated, "loadByteArray parses "+norm(parsed)+" but verifies the checksum of "+norm(verified)+": bytes that are parsed are not covered by the checksum"
+			}
+			r.Add(core.Obligation{Rule: "checksum", Key: "checksum the loader parses the bytes it verified", Func: core.FuncName(load), Pos: c.P.Pos(load.Pos()), Status: st,
+				Basis: "yaml.Unmarshal and the checksum are applied to the same bytes", Detail: det})
+			if sumCall != nil {
+				okR, nR, where := true, 0, ""
+				core.EachInstr(load, func(i ssa.Instruction) {
+					switch t := i.(type) {
+					case *ssa.Return:
+						if k, isC := t.Results[len(t.Results)-1].(*ssa.Const); !isC || !k.IsNil() {
+							return
+						}
+					case *ssa.MapUpdate:
+					default:
+						return
+					}
+					nR++
+					match := false
+					for _, g := range guardsOf(i) {
+						bo, isB := g.Cond.(*ssa.BinOp)
+						if !isB || !g.Pol {
+							continue
+						}
+						if bo.X == sumCall || bo.Y == sumCall || stripConv(bo.X) == sumCall || stripConv(bo.Y) == sumCall {
+							match = true
+						}
+					}
+					if !match {
+						okR, where = false, c.P.Pos(core.PosOf(i))
+					}
+				})
+				st = core.Proved
+				if !okR || nR == 0 {
+					st = core.Violated
+				}
+				r.Add(core.Obligation{Rule: "checksum", Key: "checksum the loader returns a table only when the checksum matches", Func: core.FuncName(load), Status: st,
+					Basis: fmt.Sprintf("%d successful returns and insertions under checksum == stored value", nR), Detail: "loadByteArray reaches " + where + " without having compared the checksum of the file with the one stored in it"})
+			}
+			// writer: what is written depends on a checksum of what was marshalled
+			stW, detW := core.Violated, "saveConfig writes the marshalled table without a checksum of it"
+			for _, site := range callsIn(save, func(n string, _ ssa.CallInstruction) bool { return n == "io/ioutil.WriteFile" || n == "os.WriteFile" }) {
+				if len(site.Common().Args) < 2 {
+					continue
+				}
+				var marshalled ssa.Value
+				hasSum := false
+				sl := dataSlice(save, site.Common().Args[1])
+				for v := range sl {
+					if cl, isCall := v.(*ssa.Call); isCall && cl.Common().StaticCallee() != nil {
+						n := core.FuncName(cl.Common().StaticCallee())
+						if n == "gopkg.in/yaml.v2.Marshal" {
+							marshalled = v
+						}
+					}
+				}
+				for v := range sl {
+					if cl, isCall := v.(*ssa.Call); isCall && cl.Common().StaticCallee() != nil && isSum(core.FuncName(cl.Common().StaticCallee())) {
+						for _, a := range cl.Common().Args {
+							if ex, isEx := a.(*ssa.Extract); isEx && ex.Tuple == marshalled {
+								hasSum = true
+							}
+						}
+					}
+				}
+				if marshalled != nil && hasSum {
+					stW, detW = core.Proved, ""
+				}
+			}
+			r.Add(core.Obligation{Rule: "checksum", Key: "checksum the writer appends a checksum of what it marshalled", Func: core.FuncName(save), Pos: c.P.Pos(save.Pos()), Status: stW,
+				Basis: "the bytes handed to WriteFile depend on a checksum of the yaml.Marshal result", Detail: detW})
+		}
+	}
 	// a restored binding is what the file says: loadByteArray assigns nothing to a loaded lease except the subnet it
 	// attaches it to (a substituted client identifier yields a binding that is absent from the file)
 	if fn := c.P.Method(rel, "Handler", "loadByteArray"); fn != nil {
@@ -817,4 +930,18 @@ func subnetOfPrefix(v ssa.Value) ssa.Value {
 // what the loop variable is called.
 func leaseLocalField(text, field string) bool {
 	return regexp.MustCompile(`^local\(\w+\)\.` + regexp.QuoteMeta(field) + `$`).MatchString(text)
+}
+
+// stripConv removes value-preserving conversions.
+func stripConv(v ssa.Value) ssa.Value {
+	for {
+		switch t := v.(type) {
+		case *ssa.Convert:
+			v = t.X
+		case *ssa.ChangeType:
+			v = t.X
+		default:
+			return v
+		}
+	}
 }
